@@ -77,18 +77,45 @@ def _un(x):
     return real_np.asarray(x) if isinstance(x, real_np.ndarray) else x
 
 
+_CMP_UFUNCS = (real_np.equal, real_np.not_equal, real_np.less, real_np.less_equal, real_np.greater, real_np.greater_equal,
+               real_np.logical_and, real_np.logical_or, real_np.logical_not)
+
+
+def _tag(t, dt):
+    if isinstance(t, Tensor):
+        t._dt = dt
+    return t
+
+
 class Tensor(SArr):
     device = CPU
     _is_torch_tensor = True
+    # storage class of the tensor as far as it is known: 'i' (integer dtypes), 'f' (floating), None (not tracked).
+    # Only Tensor.to() looks at it: torch returns the tensor itself when the requested dtype is the one it already has,
+    # so in-place arithmetic on the "converted" tensor writes into the original.
+    _dt = None
 
     def __array_finalize__(self, obj):
-        pass
+        self._dt = getattr(obj, '_dt', None)
 
     def __array_ufunc__(self, ufunc, method, *inputs, **kw):
         r = SArr.__array_ufunc__(self, ufunc, method, *inputs, **kw)
         if r is None or r is NotImplemented or isinstance(r, tuple):
             return r
-        return T(r)
+        r = T(r)
+        tags = [i._dt for i in inputs if isinstance(i, Tensor)]
+        floaty = any(isinstance(i, (float, complex, real_np.floating)) for i in inputs) or ufunc in (real_np.true_divide,)
+        if ufunc in _CMP_UFUNCS:
+            dt = None
+        elif 'f' in tags or floaty:
+            dt = 'f'
+        elif tags and all(t == 'i' for t in tags):
+            dt = 'i'
+        else:
+            dt = None
+        if isinstance(r, Tensor) and not (kw.get('out') and r is kw['out'][0]):
+            r._dt = dt
+        return r
 
     def _uint8_masks(self, idx):
         # torch reads a uint8 index array as a mask: its shape has to match the indexed dimensions
@@ -208,7 +235,7 @@ class Tensor(SArr):
         return T(real_np.asarray(self).T)
 
     def clone(self):
-        return T(real_np.asarray(self).copy())
+        return _tag(T(real_np.asarray(self).copy()), self._dt)
 
     def detach(self):
         return self
@@ -233,7 +260,10 @@ class Tensor(SArr):
         if dt is bool_ or dt is bool:
             return T(_collapse(real_np.frompyfunc(to_bool, 1, 1)(real_np.asarray(self))) if real_np.asarray(self).size else real_np.zeros(self.shape, dtype=bool))
         if dt is not None and (dt is int or dt is float or getattr(dt, 'kind', '') in 'if'):
-            return T(real_np.frompyfunc(lambda x: to_int(x) if _is_boolish(x) else x, 1, 1)(real_np.asarray(self)) if real_np.asarray(self).size else real_np.asarray(self).astype(object))
+            want = 'i' if (dt is int or getattr(dt, 'kind', '') == 'i') else 'f'
+            if self._dt == want and real_np.asarray(self).dtype == object:
+                return self          # same dtype: torch hands back the very same tensor (no copy)
+            return _tag(T(real_np.frompyfunc(lambda x: to_int(x) if _is_boolish(x) else x, 1, 1)(real_np.asarray(self)) if real_np.asarray(self).size else real_np.asarray(self).astype(object)), want)
         return self
 
     def float(self):
@@ -333,6 +363,16 @@ def tensor(x, dtype=None, device=None, **kw):
         r = T(x)
     if dtype is bool_:
         return r.to(bool_)
+    if isinstance(r, Tensor) and real_np.asarray(r).dtype == object:
+        kind = getattr(dtype, 'kind', None)
+        if kind in ('i', 'f'):
+            r._dt = kind
+        elif dtype is None:
+            flat = real_np.asarray(r).reshape(-1)
+            if flat.size and all(isinstance(v, (int, real_np.integer)) and not isinstance(v, (bool, real_np.bool_)) for v in flat):
+                r._dt = 'i'          # torch.tensor of Python ints is int64
+            elif flat.size and any(isinstance(v, (float, real_np.floating)) for v in flat):
+                r._dt = 'f'
     return r
 
 
@@ -351,7 +391,7 @@ def zeros(*shape, dtype=None, device=None, **kw):
         return T(real_np.zeros(_shape(shape), dtype=bool))
     a = real_np.empty(_shape(shape), dtype=object)
     a[...] = 0j if getattr(dtype, 'kind', '') == 'c' else 0
-    return T(a)
+    return _tag(T(a), {'c': None, 'i': 'i'}.get(getattr(dtype, 'kind', 'f'), 'f'))
 
 
 def ones(*shape, dtype=None, device=None, **kw):
@@ -359,7 +399,7 @@ def ones(*shape, dtype=None, device=None, **kw):
         return T(real_np.ones(_shape(shape), dtype=bool))
     a = real_np.empty(_shape(shape), dtype=object)
     a[...] = (1 + 0j) if getattr(dtype, 'kind', '') == 'c' else 1
-    return T(a)
+    return _tag(T(a), {'c': None, 'i': 'i'}.get(getattr(dtype, 'kind', 'f'), 'f'))
 
 
 def full(shape, value, dtype=None, device=None, **kw):
@@ -381,13 +421,13 @@ def eye(n, dtype=None, device=None, **kw):
 
 
 def arange(*a, device=None, dtype=None, **kw):
-    return T(real_np.arange(*[int(x) for x in a]).astype(object))
+    return _tag(T(real_np.arange(*[int(x) for x in a]).astype(object)), 'i' if getattr(dtype, 'kind', 'i') == 'i' else 'f')
 
 
 def randint(low, high=None, size=None, device=None, dtype=None, **kw):
     if size is None and isinstance(high, (tuple, list)):
         low, high, size = 0, low, high
-    return T(real_np.asarray(NP.random.randint(low, high, _shape((size,)))))
+    return _tag(T(real_np.asarray(NP.random.randint(low, high, _shape((size,))))), 'i')
 
 
 def complex_(re, im):
